@@ -87,6 +87,8 @@ def run(ctx: Ctx, env):
                   "concatenated into the text (TypeError) or printed", rm.rel, w)
     ctx.floor("kinds reachable by the printer", len(seen), 35)
 
+    from .common import check_shared_caches
+    check_shared_caches(ctx, [t.path for t in A.all_tmpls()], "R6.no-state-shared-between-printers", "a later rendering reuses text computed for another tree")
     # ---- R1 parenthesisation triples ------------------------------------------------------------------------------
     n_triples = 0
     results: Dict[str, Optional[str]] = {}
